@@ -124,6 +124,37 @@ example : let s := (run [.register 1, .warmup, .freeze, .request 1 true] [0, 0, 
     (step [.register 1, .warmup, .freeze, .request 1 true] s 2).1 = s ∧
     (step [.register 1, .warmup, .freeze, .request 1 true] s 1).1 ≠ s := by decide
 
+/-- **A request whose context is already done is a request all the same** (seeded change C12-14): in every
+    reachable state, when `ServeHTTP` returns for it (`Out.gone`) the router is frozen and `freezeOnce` is done —
+    so by `late_mutation_rejected` every registration / constraint / naming attempt from then on is rejected. -/
+theorem gone_request_begins_serving (kinds : List Kind) (sched : List Nat) (hv : ∀ i ∈ sched, i < kinds.length)
+    (i : Nat) (h : (step kinds (run kinds sched).1 i).2 = .gone) :
+    (run kinds sched).1.core.frozen = true ∧ (run kinds sched).1.core.fpc = .done := by
+  obtain ⟨m, _, hR⟩ := trace_accepted kinds sched hv
+  generalize (run kinds sched).1 = s at h hR
+  unfold step at h
+  cases hk : kinds[i]? with
+  | none => simp [hk] at h
+  | some k =>
+    cases hs : s.status[i]? with
+    | none => simp [hk, hs] at h
+    | some st =>
+      simp only [hk, hs] at h
+      have hst : st = .atFrozen := by
+        cases st <;> cases k <;> simp only [stepActor] at h <;> first | rfl | (exfalso; revert h; repeat' split) <;> simp
+      subst hst
+      have hd : s.core.fpc = .done := hR.frozenPt ⟨i, hs⟩
+      exact ⟨hR.inv.frozen_iff.2 (by simp [hd]), hd⟩
+
+/-- not vacuous: the first request arrives with its context done, goes through the whole freeze alone and returns;
+    the registration and the constraint that follow are rejected, the name set before is reversible -/
+example :
+    ((run [.register 1, .setName 1, .request 1 true true, .register 2, .whereInt 1, .urlFor 1, .request 2 true]
+        [0, 0, 1, 2, 2, 2, 2, 2, 2, 2, 2, 2, 3, 4, 5, 6, 6, 6]).2.filterMap
+        fun e => match e.out with | .none => none | o => some (e.actor, o)) =
+      [(0, .mut .accepted), (1, .mut .accepted), (2, .gone), (3, .mut .rejected), (4, .mut .rejected), (5, .url .ok),
+       (6, .hit none)] := by decide
+
 /-! ### reverse routing -/
 
 open Rivaas.Reverse in
